@@ -19,7 +19,7 @@ ID = "C13"
 VECS = [[0, 0], [1, 0], [0, 1], [1, 1], [2, 0]]
 QUANTILES = [0.0, 0.25, 0.5, 0.75, 1.0]
 POLICIES = ["eg0", "ucb", "sm", "ts", "pop", "lg", "lucb", "lts1"]
-ARMS = [1, 2, 3]
+ARMS = [0, 1, 2]          # label 0 on purpose: a truth-value test on a label or on 'warm_started_by' shows
 NEW_ARM = 9
 
 
